@@ -18,16 +18,25 @@ def read_monitor(ctx, outdir, mode, prefixes):
     return seen
 
 
-def run_mode(ctx, exe, mode, n, prefixes, classify, name, seeds=None, extra=None, timeout=900):
+def run_mode(ctx, exe, mode, n, prefixes, classify, name, seeds=None, extra=None, timeout=900, diff_modes=None, stats_key=None):
+    """Run one harness mode. `diff_modes`: the <x>.ops/<x>.impl pairs of the output directory that are diffed against the Lean
+    driver (default: the mode itself; [] = monitor-only). `stats_key`: copy <mode>.stats (generation distribution) into the evidence."""
     for sd in (seeds or [ctx.seed]):
         outdir = ctx.run_harness(exe, mode, n, seed=sd, extra=extra, timeout=timeout)
         if not outdir:
             continue
-        dis = ctx.diff(outdir, mode, classify=classify)
+        for dm in ([mode] if diff_modes is None else diff_modes):
+            dis = ctx.diff(outdir, dm, classify=classify if dm == mode else (lambda op, impl: (dm, hash(op) % 4096)))
+            if dis:
+                d = dis[0]
+                ctx.broken.append({"kind": "correspondence", "name": name + (" [" + dm + "]" if dm != mode else ""),
+                                   "detail": f"{len(dis)} disagreements; first: op={d[1][:1200]} impl={d[2][:600]} model={d[3][:600]}"})
+                ctx.cov.setdefault("disagreements", []).append({"op": d[1][:4000], "impl": d[2][:2000], "model": d[3][:2000]})
         seen = read_monitor(ctx, outdir, mode, prefixes)
         ctx.cov.setdefault("monitor_signatures_seen", {}).update(seen)
-        if dis:
-            d = dis[0]
-            ctx.broken.append({"kind": "correspondence", "name": name,
-                               "detail": f"{len(dis)} disagreements; first: op={d[1][:1200]} impl={d[2][:600]} model={d[3][:600]}"})
-            ctx.cov.setdefault("disagreements", []).append({"op": d[1][:4000], "impl": d[2][:2000], "model": d[3][:2000]})
+        sp = os.path.join(outdir, mode + ".stats")
+        if stats_key and os.path.exists(sp):
+            dist = ctx.cov.setdefault("distribution", {}).setdefault(stats_key, {})
+            for tok in open(sp).read().split():
+                k, _, v = tok.rpartition("=")
+                dist[k] = dist.get(k, 0) + int(v)
